@@ -60,3 +60,60 @@ CHECKS = [Check("backward.rejects", FUNCS, backward_rejects, replay_keys=["C20."
           Check("backward.rejects_iff", FUNCS, backward_rejects_iff, replay_keys=["C20."])] + list(_c06)
 TRUSTED = ["summaries of Jac / Aggregate / Accumulate / Diagonalize (proved in C15 / C06); the aggregator may reject (ValueError) "
            "only when called, i.e. before Accumulate runs"]
+
+
+# ----------------------------------------------------------------------------- mtl_backward: rejections happen before the pipeline runs
+
+
+def mtl_rejects(t):
+    """mtl_backward on arbitrary parameter lists (duplicates, overlaps, tensors that do not expect a gradient, any chunk
+    size, any number of parameter groups vs losses is fixed to t here): whenever it raises, the pipeline has not been
+    run (so no .grad can have been written); whenever it runs the pipeline, every parameter it will accumulate into
+    expects a gradient — so Accumulate (whose only rejection is that check, C06) cannot raise half-way."""
+    from tjv.pyvc.lten import AbstractAgg
+    from .C02 import flatten_composition
+    AJ, TR = A.AJ, A.TR
+
+    def fn(H):
+        def body(cx):
+            captured = []
+
+            def capture(interp, args, kwargs):
+                captured.append(args[0])
+                return None
+            ov = dict(A.SUMMARIES)
+            ov[f"{TR}.base.Transform.__call__"] = capture
+            it = H.interp(cx, loop_specs=A.LOOPS, overrides=ov)
+            F = A.tensor_list(cx, "F", distinct=None)
+            S = A.tensor_list(cx, "S", distinct=None)
+            TP = [A.tensor_list(cx, f"TP{i}", distinct=None) for i in range(t)]
+            losses = [V.TRef(z3.Const(f"loss{i}", A.TenS)) for i in range(t)]
+            k, kn = z3.Int("chunk"), z3.Bool("chunk_is_none")
+            rg = z3.Bool("retain_graph")
+            agg = AbstractAgg(cx, may_raise=True)
+            kind, out = call_catch(lambda: it.call(H.repo.get(f"{AJ}.mtl_backward.mtl_backward"),
+                                                   [list(losses), F, agg, list(TP), S, rg, V.Opt(kn, k)]))
+            if kind == "raise":
+                cx.oblige(f"C20.mtl{t}.rejected_before_the_pipeline_runs", len(captured) == 0, where=str(getattr(out, "where", "")))
+                cx.oblige(f"C20.mtl{t}.rejection_is_ValueError", out.cls == "ValueError", where=str(getattr(out, "where", "")))
+                return
+            cx.oblige(f"C20.mtl{t}.pipeline_run_once", len(captured) == 1)
+            w = cx.fresh_int("w")
+            for name, seq in [("shared", S)] + [(f"task{i}", TP[i]) for i in range(t)]:
+                cx.oblige(f"C20.mtl{t}.accepted_only_if_{name}_params_expect_grad",
+                          z3.Implies(z3.And(0 <= w, w < seq.length), A.expects_grad(seq.get(w).ref)))
+            cx.oblige(f"C20.mtl{t}.accepted_only_with_positive_chunk", z3.Or(kn, k > 0))
+            cx.oblige(f"C20.mtl{t}.accepted_only_with_features", F.length >= 1)
+            # shared / task overlap is rejected
+            a, b = cx.fresh_int("oa"), cx.fresh_int("ob")
+            for i in range(t):
+                cx.oblige(f"C20.mtl{t}.accepted_only_without_overlap.task{i}",
+                          z3.Implies(z3.And(0 <= a, a < S.length, 0 <= b, b < TP[i].length), S.get(a).ref != TP[i].get(b).ref))
+        H.explore(body, max_paths=4000)
+    return Check(f"mtl_rejects.t{t}", [f"{AJ}.mtl_backward.mtl_backward", f"{AJ}.mtl_backward._check_no_overlap",
+                                       f"{AJ}.mtl_backward._check_losses_are_scalar", f"{AJ}._utils._check_optional_positive_chunk_size",
+                                       f"{TR}.accumulate._check_expects_grad"], fn, replay_keys=["C20."])
+
+
+CHECKS.append(mtl_rejects(1))
+THOROUGH_CHECKS = [mtl_rejects(2)]
